@@ -97,6 +97,7 @@ func init() {
 	reg("ncleaf", Leaf, 1, ix(0), nil, false, 1)
 	reg("isleaf", Leaf, 1, ix(0), nil, false, 1)
 	reg("lowleaf", Leaf, 1, ix(0), nil, false, 1)
+	reg("asleaf", Leaf, 1, ix(0), nil, false, 1)
 	// library wrappers
 	reg("wrap", Wrap, 1, nil, ix(0), true, 4)
 	reg("wrapempty", Wrap, 0, nil, nil, true, 1)
@@ -292,6 +293,8 @@ func Build1(n *Node, m Built) error {
 		return &IsLeaf{S[0]}
 	case "lowleaf":
 		return &LOW{Msg: S[0]}
+	case "asleaf":
+		return &AsLeaf{S[0]}
 	// ---- library wrappers
 	case "wrap":
 		return errors.Wrap(kids[0], S[0])
